@@ -1342,20 +1342,23 @@ class Server:
         async def stor_worker(self, connection, rest):
             stream = connection.data_connection
             del connection.data_connection
-            if connection.restart_offset:
+            if restart_offset:
                 file_mode = "r+b"
             else:
                 file_mode = mode
             file_out = connection.path_io.open(real_path, mode=file_mode)
             async with stream, file_out:
-                if connection.restart_offset:
-                    await file_out.seek(connection.restart_offset)
+                if restart_offset:
+                    await file_out.seek(restart_offset)
                 async for data in stream.iter_by_block(connection.block_size):
                     await file_out.write(data)
             connection.response("226", "data transfer done")
             return True
 
         real_path, virtual_path = self.get_paths(connection, rest)
+        # restart offset is for this transfer only
+        restart_offset = connection.restart_offset
+        connection.restart_offset = 0
         if await connection.path_io.is_dir(real_path.parent):
             coro = stor_worker(self, connection, rest)
             task = asyncio.create_task(coro)
@@ -1388,14 +1391,17 @@ class Server:
             del connection.data_connection
             file_in = connection.path_io.open(real_path, mode="rb")
             async with stream, file_in:
-                if connection.restart_offset:
-                    await file_in.seek(connection.restart_offset)
+                if restart_offset:
+                    await file_in.seek(restart_offset)
                 async for data in file_in.iter_by_block(connection.block_size):
                     await stream.write(data)
             connection.response("226", "data transfer done")
             return True
 
         real_path, virtual_path = self.get_paths(connection, rest)
+        # restart offset is for this transfer only
+        restart_offset = connection.restart_offset
+        connection.restart_offset = 0
         coro = retr_worker(self, connection, rest)
         task = asyncio.create_task(coro)
         connection.extra_workers.add(task)
